@@ -102,6 +102,18 @@ func ruleF4(c *Ctx, id string) {
 			return false, false
 		})
 		if !g {
+			// or the value stored is max(<current ShrinkSize>, ...): never below the pending value
+			if mc, isC := val.(*ssa.Call); isC {
+				if bi, isB := mc.Call.Value.(*ssa.Builtin); isB && bi.Name() == "max" {
+					for _, a := range mc.Call.Args {
+						if n, fl, bs, _ := loadedField(stripConv(a)); n == V.Inode && fl == "ShrinkSize" && bs == base {
+							g = true
+						}
+					}
+				}
+			}
+		}
+		if !g {
 			keepsPending = false
 		}
 	}
